@@ -85,6 +85,19 @@ def test_state(rep, st, box, rng, tier):
         with impl.quiet(), impl.watchdog(240):
             if prev is not None:
                 combi.perform_operation(prev[0], max(prev))
+                if D == 2:
+                    # the earlier result is inspected with the library's own plotting routines (read-only requests) before the object is used again
+                    case['inspected'] = True
+                    try:
+                        import matplotlib.pyplot as plt
+                        combi.print_subspaces()
+                        combi.print_resulting_combi_scheme()
+                        combi.print_resulting_sparsegrid()
+                        plt.close('all')
+                    except impl.Timeout:
+                        raise
+                    except Exception as ex:      # what the plotting routines themselves do is outside the property
+                        case['inspection_raised'] = repr(ex)
             scheme, _, res = combi.perform_operation(lmin, lmax)
     except impl.Timeout:
         rep.exclude('%s: timeout' % case)
